@@ -89,17 +89,21 @@ pub fn library_vs_corpus(repo: &str, property: &str, only: Option<&str>) -> Resu
                     out.push(violation("C01", "corpus-invalid-token-accepted", &name, "", "a token the corpus records as forged / tampered is accepted".to_string()));
                 }
             }
-            "C02" | "C15" | "C12" | "C16" | "C04" | "C03" | "C08" => {
+            "C02" | "C15" | "C12" | "C16" | "C04" | "C03" | "C08" | "C07" => {
                 if format_error {
+                    continue;
+                }
+                let has_tp = t["token"].as_array().map(|a| a.iter().any(|b| !b["external_key"].is_null())).unwrap_or(false);
+                if property == "C07" && !has_tp {
                     continue;
                 }
                 let b = match (&parsed, &via_unverified) {
                     (Ok(b), Ok(_)) => b,
                     (a, c) => {
-                        if property == "C02" {
+                        if property == "C02" || property == "C07" || property == "C12" {
                             evaluated += 1;
                             out.push(violation(
-                                "C02",
+                                property,
                                 "legit-token-rejected",
                                 &name,
                                 "",
@@ -132,7 +136,7 @@ pub fn library_vs_corpus(repo: &str, property: &str, only: Option<&str>) -> Resu
                             }
                         }
                     }
-                    "C12" | "C16" => {
+                    "C12" | "C16" | "C07" => {
                         for (i, bj) in blocks.iter().enumerate() {
                             evaluated += 1;
                             if property == "C16" {
@@ -146,7 +150,7 @@ pub fn library_vs_corpus(repo: &str, property: &str, only: Option<&str>) -> Resu
                                 match b.print_block_source(i) {
                                     Ok(s) if s == want => {}
                                     other => out.push(violation(
-                                        "C12",
+                                        property,
                                         "references-resolve-wrong",
                                         &name,
                                         "",
@@ -155,7 +159,7 @@ pub fn library_vs_corpus(repo: &str, property: &str, only: Option<&str>) -> Resu
                                 }
                                 let syms: Vec<String> = bj["symbols"].as_array().map(|a| a.iter().map(|s| s.as_str().unwrap_or("").to_string()).collect()).unwrap_or_default();
                                 if b.block_symbols(i).ok() != Some(syms) {
-                                    out.push(violation("C12", "references-resolve-wrong", &name, "", format!("block {i}: symbols differ from the corpus")));
+                                    out.push(violation(property, "references-resolve-wrong", &name, "", format!("block {i}: symbols differ from the corpus")));
                                 }
                             }
                         }
